@@ -280,6 +280,11 @@ def run_plan(C, case, plan, use_global, findings, tag):
                 elif step["kind"] == "palette_inst":
                     cls(colors_conf=conf)
                     reg_model(cls)
+                elif step["kind"] == "palette_inst_nc":
+                    # the class reaches this configuration through a no-colour palette, after it served another configuration
+                    cls(colors_conf=C.ColorsConfig({}), no_color=True)
+                    cls(colors_conf=conf, no_color=True)
+                    reg_model(cls)
                 elif step["kind"] == "palette_sub":
                     # the class becomes known to the configuration as a sub-palette of a compound palette
                     if comp_cls[0] is None:
@@ -394,7 +399,7 @@ def st_case(draw):
         while rest:
             take = draw(st.integers(1, len(rest)))
             chunk, rest = rest[:take], rest[take:]
-            steps.append({"kind": draw(st.sampled_from(["items", "items", "palette", "palette_inst", "palette_defer", "palette_sub"])), "idx": chunk,
+            steps.append({"kind": draw(st.sampled_from(["items", "items", "palette", "palette_inst", "palette_defer", "palette_sub", "palette_inst_nc"])), "idx": chunk,
                           "nested": draw(st.booleans()), "parents": draw(st.lists(st.integers(0, 5), max_size=2)),
                           "dups": []})
             if len(steps) >= 4 and rest:
